@@ -240,3 +240,48 @@ Theorem C02_gen_executePlugin_spec :
     /\ VerifySignatureRequest_PluginConfig req = cfg.
 Proof. exact gen_executePlugin_spec. Qed.
 Print Assumptions C02_gen_executePlugin_spec.
+
+(* ---------------------------------------------------------------------- *)
+(* stages of the model on the generated functions                           *)
+(* ---------------------------------------------------------------------- *)
+
+(* the revocation stage of VerifyCore.native (verifyRevocation, then isCriticalFailure) on the
+   code's own two functions: the reported result is [mk_res TRev (l_rev lvl) (negb s_rev_ok)], the
+   early exit is [is_critical_failure (l_rev lvl) (negb s_rev_ok)]; b is the scenario's [s_rev_ok] *)
+Theorem C02_gen_revocation_stage :
+  forall (C : Type) (subjs : C -> string) ast (PM : Type) (v : verifier_verifier C PM) outcome o env lvl b,
+  ptr_val outcome = Some o ->
+  ptr_val (VerificationOutcome_EnvelopeContent C o) = Some env ->
+  ptr_val (VerificationOutcome_VerificationLevel C o) = Some lvl ->
+  (rev_ok_of C ast PM v env <-> b = true) ->
+  exists r, gen_verifier_verifier_verifyRevocation C subjs ast PM v outcome = Some (PNew r)
+            /\ ValidationResult_Type r = "revocation"
+            /\ vr_action r = l_rev (glevel_of lvl) /\ vr_failed r = negb b
+            /\ gen_verifier_isCriticalFailure r = is_critical_failure (l_rev (glevel_of lvl)) (negb b).
+Proof. exact gen_revocation_stage. Qed.
+Print Assumptions C02_gen_revocation_stage.
+
+(* the version facts of a scenario are what the code's own IsValid / isRequiredVerificationPluginVer
+   answer ([plugin_of] of C02_Versions) *)
+Theorem C02_gen_version_gate : forall gcmp, compare_agrees gcmp -> compare_range gcmp ->
+  forall version min caps,
+    match min with VerifyCore.AStr m => sv_valid m = true | AAbsent => True | _ => False end ->
+    PMPlugin (gen_semver_IsValid version)
+             (gen_semver_IsValid version && gen_verifier_isRequiredVerificationPluginVer gcmp version (minver_string min)) caps
+    = PMPlugin (sv_valid version) (sv_valid version && ver_ge version min) caps.
+Proof. exact gen_version_gate. Qed.
+Print Assumptions C02_gen_version_gate.
+
+(* transported C02_too_old_rejects: the code's own version test says "too old" => rejected as
+   inconclusive right after integrity, whatever the level, capabilities and plugin answer *)
+Theorem C02_gen_too_old_rejects : forall gcmp, compare_agrees gcmp -> compare_range gcmp ->
+  forall lvl sc version caps n m,
+  s_integrity_ok sc = true -> s_nonstring_crit sc = false ->
+  s_plugin_attr sc = VerifyCore.AStr n -> blank n = false ->
+  s_minver_attr sc = VerifyCore.AStr m -> blank m = false -> gen_semver_IsValid m = true ->
+  gen_semver_IsValid version = true ->
+  gen_verifier_isRequiredVerificationPluginVer gcmp version m = false ->
+  verify_core lvl (versioned sc version caps)
+  = mk_obs EInconclusive [mk_res TIntegrity Enforce false] false [n] None.
+Proof. exact gen_too_old_rejects. Qed.
+Print Assumptions C02_gen_too_old_rejects.
